@@ -36,6 +36,7 @@ type Config struct {
 
 type Cex struct {
 	Harness    string            `json:"harness"`
+	Pkg        string            `json:"pkg,omitempty"` // package of the harness relative to the module (a harness file may be shared by several packages)
 	Obligation string            `json:"obligation"`
 	Kind       string            `json:"kind"` // "new" or "known:<id>"
 	Desc       string            `json:"desc"`
@@ -443,7 +444,7 @@ func (p *Path) queryTerms() []*Term {
 }
 
 func (p *Path) buildCex(id, kind, desc string, vals []string) *Cex {
-	c := &Cex{Harness: p.ex.entry.Name(), Obligation: id, Kind: kind, Desc: desc, PathNotes: append([]string(nil), p.notes...)}
+	c := &Cex{Harness: p.ex.entry.Name(), Pkg: entryPkgRel(p.ex.entry), Obligation: id, Kind: kind, Desc: desc, PathNotes: append([]string(nil), p.notes...)}
 	for _, d := range p.trace {
 		c.Decisions = append(c.Decisions, d.val)
 	}
@@ -483,4 +484,11 @@ func (p *Path) buildCex(id, kind, desc string, vals []string) *Cex {
 		}
 	}
 	return c
+}
+
+func entryPkgRel(f *ssa.Function) string {
+	if f == nil || f.Pkg == nil {
+		return ""
+	}
+	return strings.TrimPrefix(strings.TrimPrefix(f.Pkg.Pkg.Path(), teleportMod), "/")
 }
